@@ -435,12 +435,14 @@ def explore(sc, root, bound=None, observer=None, max_exec=None, time_cap=None, r
                 g.r |= f.r
                 g.w |= f.w
                 g.d |= f.d
+    env.STATE.shared_private = set()
     while True:
         passes += 1
         seen = {}
+        shared_before = set(env.STATE.shared_private)
         r = _explore_once(sc, root, bound, observer, max_exec, time_cap, fp, seen, t0)
         total_exec += r["executions"]
-        grew = False
+        grew = env.STATE.shared_private != shared_before  # a temp path turned out to be shared: explore again
         if fp is not None:
             for n, f in seen.items():
                 g = fp.setdefault(n, Footprint())
@@ -452,6 +454,7 @@ def explore(sc, root, bound=None, observer=None, max_exec=None, time_cap=None, r
         if not grew or r["capped"]:
             break
     r["passes"] = passes
+    r["shared_temp_paths"] = sorted(env.STATE.shared_private)
     r["executions_all_passes"] = total_exec
     r["wall"] = time.time() - t0
     return r
